@@ -170,7 +170,6 @@ Qed.
    both, followed by nothing or by '?' / '#', the parser context does what the setter context does on the
    argument alone, and hands the rest on *)
 Definition qh_tail (X : list N) : Prop := match X with [] => True | c :: _ => ((c =? 63) || (c =? 35)) = true end.
-Definition no_qhc (c : N) : bool := negb ((c =? 63) || (c =? 35)).
 
 Definition with_rem {A B} (X : list N) (r : pres (A * B * list N)) : pres (A * B * list N) :=
   match r with POk (s, h, _) => POk (s, h, X) | PErr e => PErr e | PPanic => PPanic end.
@@ -178,7 +177,7 @@ Definition with_rem {A B} (X : list N) (r : pres (A * B * list N)) : pres (A * B
 Lemma qh_not_tnl c : ((c =? 63) || (c =? 35)) = true -> is_tnl c = false.
 Proof. unfold is_tnl. lia. Qed.
 
-Lemma path_loop_ctx dbg st ps p : forall X ser seg pend hh, forallb no_qhc p = true -> qh_tail X ->
+Lemma path_loop_ctx dbg st ps p : forall X ser seg pend hh, forallb no_qh p = true -> qh_tail X ->
   parse_path_loop dbg CUrlParser st ps (p ++ X) ser seg pend hh
   = with_rem X (parse_path_loop dbg CSetter st ps p ser seg pend hh).
 Proof.
@@ -191,7 +190,7 @@ Proof.
       cbn [ctx_eqb negb andb]. rewrite E, HX. cbn [andb].
       change (push_pending CUrlParser st ser pend) with (push_pending CSetter st ser pend).
       destruct (finish_segment dbg st ps (push_pending CSetter st ser pend) seg false hh) as [[s2 h2]| |]; reflexivity.
-  - cbn [forallb] in Hp. apply andb_true_iff in Hp. destruct Hp as [Hc Hp]. unfold no_qhc in Hc. apply negb_true_iff in Hc.
+  - cbn [forallb] in Hp. apply andb_true_iff in Hp. destruct Hp as [Hc Hp]. unfold no_qh in Hc. apply negb_true_iff in Hc.
     cbn [app parse_path_loop]. cbn [ctx_eqb negb andb]. rewrite Hc. cbn [andb].
     change (push_pending CUrlParser st ser pend) with (push_pending CSetter st ser pend).
     destruct (is_tnl c); [apply IH; assumption|].
@@ -209,7 +208,7 @@ Qed.
 
 (* parse_path_start: the argument does not begin with TAB/LF/CR (so that the first character the parser
    looks at is the argument's own), or is empty *)
-Theorem path_start_ctx dbg st hh ser p X : forallb no_qhc p = true -> qh_tail X ->
+Theorem path_start_ctx dbg st hh ser p X : forallb no_qh p = true -> qh_tail X ->
   match p with c :: _ => is_tnl c = false | [] => True end ->
   parse_path_start dbg CUrlParser st hh ser (p ++ X) = with_rem X (parse_path_start dbg CSetter st hh ser p).
 Proof.
@@ -225,15 +224,15 @@ Proof.
       * destruct (negb (ends_with_byte 47 ser)); [rewrite Es|]; apply (path_loop_ctx dbg st _ [] (d :: r)); try exact HX; reflexivity.
       * rewrite HX. destruct st; try discriminate Esp. cbn [parse_path_loop push_pending]. unfold finish_segment.
         rewrite slice_o_some by lia. rewrite N.sub_diag. cbn. reflexivity.
-  - cbn [forallb] in Hp. apply andb_true_iff in Hp. destruct Hp as [Hc Hp']. unfold no_qhc in Hc. apply negb_true_iff in Hc.
+  - cbn [forallb] in Hp. apply andb_true_iff in Hp. destruct Hp as [Hc Hp']. unfold no_qh in Hc. apply negb_true_iff in Hc.
     unfold inp_split_first. rewrite (inp_next_cons c p H1). cbn [app]. rewrite (inp_next_cons c (p ++ X) H1).
     destruct (st_is_special st).
     + destruct (negb (ends_with_byte 47 ser)).
       * destruct (is_slash_or_bslash c).
         -- apply path_loop_ctx; assumption.
-        -- apply (path_loop_ctx dbg st _ (c :: p)); [cbn [forallb]; unfold no_qhc; rewrite Hc; exact Hp' | exact HX].
-      * apply (path_loop_ctx dbg st _ (c :: p)); [cbn [forallb]; unfold no_qhc; rewrite Hc; exact Hp' | exact HX].
-    + rewrite Hc. destruct (c =? 47); apply (path_loop_ctx dbg st _ (c :: p)); try exact HX; cbn [forallb]; unfold no_qhc; rewrite Hc; exact Hp'.
+        -- apply (path_loop_ctx dbg st _ (c :: p)); [cbn [forallb]; unfold no_qh; rewrite Hc; exact Hp' | exact HX].
+      * apply (path_loop_ctx dbg st _ (c :: p)); [cbn [forallb]; unfold no_qh; rewrite Hc; exact Hp' | exact HX].
+    + rewrite Hc. destruct (c =? 47); apply (path_loop_ctx dbg st _ (c :: p)); try exact HX; cbn [forallb]; unfold no_qh; rewrite Hc; exact Hp'.
 Qed.
 
 (* ================= fragment and query ================= *)
